@@ -8,10 +8,12 @@ SPEC = {
     "level": "proof",
     "tie": "T3: the hand-written model (searchParallel, back-fill, select via msgpack Query + nested rebuild, CompareAny / SortSearchResults, the offset/limit slice in both variants) is run by the Lean driver on the same requests as a real shard (bbolt file and memory backend alternate). The answers of the query-tree leaves (ids, _hybridScore bit patterns) and the stored documents are taken from the real shard; the driver merges, back-fills, selects, sorts and pages and must print exactly the rows the shard returns (ids in order, _hybridScore bits, decoded data). CompareAny, reflect.Kind numbers and float32 addition are also compared on scalar op lines. The documented behaviour is evaluated directly on every real answer by a Go oracle.",
     "required_theorems": [
-        "Sema.C06.C06_merge", "Sema.C06.C06_merge_single", "Sema.C06.C06_single_sub_witness", "Sema.C06.C06_backfill",
-        "Sema.C06.C06_select", "Sema.C06.C06_select_star", "Sema.C06.C06_select_scalar_witness",
+        "Sema.C06.C06_merge", "Sema.C06.C06_merge_single", "Sema.C06.C06_rank_order", "Sema.C06.C06_rank_sorter_exists",
+        "Sema.C06.C06_single_sub_repaired", "Sema.C06.C06_backfill",
+        "Sema.C06.C06_select", "Sema.C06.C06_select_star", "Sema.C06.C06_select_total", "Sema.C06.C06_select_scalar",
         "Sema.C06.C06_cmp_preorder", "Sema.C06.C06_sortcmp_preorder", "Sema.C06.C06_sort_exists", "Sema.C06.C06_missing_last",
-        "Sema.C06.C06_sort_ties", "Sema.C06.C06_cmp_same_kind", "Sema.C06.C06_cmp_cross_kind_witness",
+        "Sema.C06.C06_sort_ties", "Sema.C06.C06_cmp_same_kind", "Sema.C06.C06_cmp_numeric", "Sema.C06.C06_cmp_integers",
+        "Sema.C06.C06_float_value_order", "Sema.C06.C06_cmp_cross_kind", "Sema.C06.C06_sort_numeric",
         "Sema.C06.C06_page", "Sema.C06.C06_page_overflow_witness", "Sema.C06.C06_page_repaired",
     ],
     "trusted_base": [
